@@ -188,19 +188,21 @@ theorem encodeChunks_eq (maxBody : Nat) (hmb : 0 < maxBody) (h : MsgHdr) (body :
 
 /-! ### sequence numbers -/
 
-/-- the invariant of `instance.sequenceNumber` (initial values 0 and 1..1023) -/
-def SeqInv (seq : Int) : Prop := 0 ≤ seq ∧ seq ≤ 4294966272
+/-- `instance.sequenceNumber` is a `uint32` -/
+def SeqInv (seq : Int) : Prop := 0 ≤ seq ∧ seq < 4294967296
 
+/-- `nextSequenceNumber` stays a `uint32` and never returns the number it started from -/
 theorem next_inv (seq : Int) (h : SeqInv seq) :
     SeqInv (Gen.nextSequenceNumber seq).1 ∧ (Gen.nextSequenceNumber seq).2 = (Gen.nextSequenceNumber seq).1 ∧
-    1 ≤ (Gen.nextSequenceNumber seq).1 ∧ (Gen.nextSequenceNumber seq).1 ≠ seq := by
+    (Gen.nextSequenceNumber seq).1 ≠ seq := by
   obtain ⟨h0, h1⟩ := h
   simp only [Gen.nextSequenceNumber, SeqInv]
-  have e : (seq + 1) % 4294967296 = seq + 1 := Int.emod_eq_of_lt (by omega) (by omega)
-  rw [e]
-  by_cases hc : seq + 1 > 4294967295 - 1023
-  · simp; omega
-  · simp; omega
+  have e0 : 0 ≤ (seq + 1) % 4294967296 := Int.emod_nonneg _ (by omega)
+  have e1 : (seq + 1) % 4294967296 < 4294967296 := Int.emod_lt_of_pos _ (by omega)
+  have e2 : (seq + 1) % 4294967296 = seq + 1 ∨ ((seq + 1) % 4294967296 = 0 ∧ seq = 4294967295) := by omega
+  by_cases hc : (seq + 1) % 4294967296 > 4294967295 - 1023
+  · simp [hc]; omega
+  · simp [hc]; omega
 
 theorem next_range (seq : Int) : 0 ≤ (Gen.nextSequenceNumber seq).2 ∧ (Gen.nextSequenceNumber seq).2 < 4294967296 := by
   simp only [Gen.nextSequenceNumber]
@@ -288,36 +290,42 @@ theorem sendMessage_ok {S R : Side} (hp : Paired S R) (insts : Nat → List Side
       exact .cons ⟨hrd, hlen, hsz, hfl⟩ (e2 _ _ ▸ hW)
 /-! ### mergeChunks -/
 
-/-- no chunk carries the sequence number of its predecessor (`k` for the first) -/
-def NoAdjDup : Nat → List RChunk → Prop
-  | _, [] => True
-  | k, c :: cs => c.seq ≠ k ∧ NoAdjDup c.seq cs
+/-- no chunk carries the sequence number of its predecessor (`k`); the first
+    chunk of the message (`first = true`) has no predecessor -/
+def NoAdjDup : Bool → Nat → List RChunk → Prop
+  | _, _, [] => True
+  | first, k, c :: cs => (first = true ∨ c.seq ≠ k) ∧ NoAdjDup false c.seq cs
 
-theorem mergeLoop_eq (k : Nat) (cs : List RChunk) (h : NoAdjDup k cs) :
-    mergeLoop k cs = (cs.map (·.data)).flatten := by
-  induction cs generalizing k with
+theorem mergeLoop_eq (first : Bool) (k : Nat) (cs : List RChunk) (h : NoAdjDup first k cs) :
+    mergeLoop first k cs = (cs.map (·.data)).flatten := by
+  induction cs generalizing first k with
   | nil => rfl
   | cons c cs ih =>
     obtain ⟨h1, h2⟩ := h
-    simp only [mergeLoop, if_neg h1, List.map_cons, List.flatten_cons, ih _ h2]
+    have : ¬ (first = false ∧ c.seq = k) := by
+      rcases h1 with h1 | h1
+      · simp [h1]
+      · exact fun h => h1 h.2
+    simp only [mergeLoop, if_neg this, List.map_cons, List.flatten_cons, ih _ _ h2]
 
-theorem mergeChunks_eq (cs : List RChunk) (h : NoAdjDup 0 cs) :
+theorem mergeChunks_eq (cs : List RChunk) (h : NoAdjDup true 0 cs) :
     mergeChunks cs = (cs.map (·.data)).flatten := by
   match cs, h with
   | [], _ => rfl
   | [c], _ => simp [mergeChunks]
-  | c :: d :: r, h => simp only [mergeChunks]; exact mergeLoop_eq 0 _ h
+  | c :: d :: r, h => simp only [mergeChunks]; exact mergeLoop_eq true 0 _ h
 
-theorem stamped_noAdjDup (h : MsgHdr) (seq : Int) (hinv : SeqInv seq) (k : Nat) (hk : k = 0 ∨ (k : Int) = seq)
-    (its : List (UInt8 × Bytes)) : NoAdjDup k (stamped h seq its) := by
-  induction its generalizing seq k with
+theorem stamped_noAdjDup (h : MsgHdr) (seq : Int) (hinv : SeqInv seq) (first : Bool) (k : Nat)
+    (hk : first = true ∨ (k : Int) = seq) (its : List (UInt8 × Bytes)) : NoAdjDup first k (stamped h seq its) := by
+  induction its generalizing seq first k with
   | nil => trivial
   | cons i r ih =>
-    obtain ⟨i1, i2, i3, i4⟩ := next_inv seq hinv
-    refine ⟨?_, ih _ i1 _ (Or.inr ?_)⟩
-    · simp only [expChunk]
-      rcases hk with rfl | hk <;> omega
-    · simp only [expChunk]; omega
+    obtain ⟨i1, i2, i4⟩ := next_inv seq hinv
+    refine ⟨?_, ih _ i1 false _ (Or.inr ?_)⟩
+    · rcases hk with hk | hk
+      · exact Or.inl hk
+      · right; simp only [expChunk]; have := i1.1; omega
+    · simp only [expChunk]; have := i1.1; omega
 
 theorem stamped_data (h : MsgHdr) (seq : Int) (its : List (UInt8 × Bytes)) :
     (stamped h seq its).map (·.data) = its.map (·.2) := by
@@ -366,8 +374,8 @@ theorem receiveAll_ok (insts : Nat → List Side) (lim : Limits) (S : Side) (req
     (hW : Wires insts S ws (cs ++ [last]))
     (hC : ∀ c ∈ cs, c.chunkType = chunkC ∧ c.requestID = req)
     (hF : last.chunkType = chunkF ∧ last.requestID = req)
-    (hcount : (t req).length + cs.length ≤ lim.maxChunkCount)
-    (hsize : (mergeChunks (t req ++ cs ++ [last])).length ≤ lim.maxMessageSize) :
+    (hcount : lim.maxChunkCount = 0 ∨ (t req).length + cs.length ≤ lim.maxChunkCount)
+    (hsize : lim.maxMessageSize = 0 ∨ (mergeChunks (t req ++ cs ++ [last])).length ≤ lim.maxMessageSize) :
     receiveAll insts lim t ws =
       (t.set req [], some (.ok ⟨req, last.channelID, mergeChunks (t req ++ cs ++ [last])⟩), []) := by
   induction cs generalizing ws t with
@@ -449,7 +457,8 @@ theorem message_roundtrip {S R : Side} (hp : Paired S R) (insts : Nat → List S
     (maxBody : Nat) (hmb : 0 < maxBody) (chan tok req : Nat) (hc : chan < 4294967296) (hr : req < 4294967296)
     (hi : ∃ rest, (insts chan).reverse = R :: rest) (seq : Int) (hinv : SeqInv seq)
     (body : Bytes) (hb : body.length < 4294967296) (t : Table) (ht : t req = [])
-    (hcount : body.length / maxBody ≤ lim.maxChunkCount) (hsize : body.length ≤ lim.maxMessageSize) :
+    (hcount : lim.maxChunkCount = 0 ∨ body.length / maxBody ≤ lim.maxChunkCount)
+    (hsize : lim.maxMessageSize = 0 ∨ body.length ≤ lim.maxMessageSize) :
     ∃ ws, sendMessage S maxBody seq typeMSG chan tok req body =
         (seqAfter seq (body.length / maxBody + 1), .ok ws) ∧
       ws.length = body.length / maxBody + 1 ∧
@@ -464,7 +473,7 @@ theorem message_roundtrip {S R : Side} (hp : Paired S R) (insts : Nat → List S
     rw [this, hlen]
   · -- split the expected chunks into the intermediate ones and the final one
     have hmerge : mergeChunks (stamped ⟨typeMSG, chan, tok, 0, req⟩ seq (items maxBody body)) = body := by
-      rw [mergeChunks_eq _ (stamped_noAdjDup _ seq hinv 0 (Or.inl rfl) _), stamped_data, items_data]
+      rw [mergeChunks_eq _ (stamped_noAdjDup _ seq hinv true 0 (Or.inl rfl) _), stamped_data, items_data]
     have hsplit : stamped ⟨typeMSG, chan, tok, 0, req⟩ seq (items maxBody body) =
         stamped ⟨typeMSG, chan, tok, 0, req⟩ seq
           ((pieces maxBody (body.length / maxBody) body).1.map (fun p => (chunkC, p))) ++
